@@ -93,10 +93,15 @@ def r2_chem_units(ctx):
 def r3_orientation(ctx):
     fn = ctx.func(UNITS, "to_unitless")
     a = UNITS + ":to_unitless"
-    vals = {}
+    vals, ndefs = {}, {}
     for s in ast.walk(fn):
         if isinstance(s, ast.Assign) and isinstance(s.targets[0], ast.Name):
             vals[s.targets[0].id] = s.value
+            ndefs[s.targets[0].id] = ndefs.get(s.targets[0].id, 0) + 1
+    multi = sorted(k for k in ("mag", "unt", "conv", "result") if ndefs.get(k, 0) != 1)
+    ctx.check(not multi, a, "one-conversion-path", "magnitude, unit, factor and result must each be computed in exactly one way (a second arm that skips the rescaling, e.g. a "
+              "shortcut `conv = 1.0` when the units 'compare equal', lets incompatible or prefixed units through); %s defined %s times" % (
+                  multi, [ndefs.get(k, 0) for k in multi]), node=fn)
     ctx.check("mag" in vals and U(vals["mag"]) == "magnitude(value)" and "unt" in vals and U(vals["unt"]) == "unit_of(value)", a, "mag,unit-of-value", "magnitude and unit must both be taken from `value`", node=fn)
     conv = vals.get("conv")
     ok = isinstance(conv, ast.Call) and call_name(conv) == "rescale" and len(conv.args) == 2 and U(conv.args[1]) == "pq.dimensionless" and \
@@ -417,3 +422,5 @@ TWINS = [
     Twin("factor-parenthesised", [(UNITS, "conv = rescale(unt/new_unit, pq.dimensionless)", "conv = rescale((unt / new_unit), pq.dimensionless)")]),
     Twin("polyfit-commuted", [(UNITS, "return [v * u_y * u_x ** (i - deg) for i, v in enumerate(p)]", "return [u_x ** (i - deg) * v * u_y for i, v in enumerate(p)]")]),
 ]
+MUTANTS.append(Mutant("to_unitless-equal-units-shortcut", [(UNITS, "                conv = rescale(unt/new_unit, pq.dimensionless)\n", "                if is_quantity(unt) and unt == new_unit:\n                    conv = 1.0\n                else:\n                    conv = rescale(unt/new_unit, pq.dimensionless)\n")], "C09-R3", "one-conversion-path"))
+
